@@ -21,12 +21,20 @@ func c13Served(c *core.Check, events *[][]byte, caseInfo map[string]any) int {
 	// (the served bytes are the file, not a rendering of it: format verbs and template actions in the text stay text)
 	descs := []string{"", "one \\ back\\slash \"q\" `tick` 100% %d %s %% %v %", "multi\nline\r\nwith\ttab and unicode é ☃ {{ .Name }} %[1]d ${HOME}"}
 	bases := baseForms()
+	// names and base paths that need percent-encoding in a URL (the route is compared with the decoded request path)
+	nB := len(bases)
+	bases = append(bases, aspec.Base{Form: "servers", Segs: []string{"pet store", "v1"}}, aspec.Base{Form: "flag", Segs: []string{"caf\u00e9"}}, aspec.Base{Form: "none"})
+	odd := map[int]string{nB: "openapi.yaml", nB + 1: "sp\u00e9c file.json", nB + 2: "pet store.yaml"}
 	for bi, b := range bases {
-		if c.Tier != "thorough" && bi%2 == 1 && bi != 3 {
+		if c.Tier != "thorough" && bi%2 == 1 && bi != 3 && bi < nB {
 			continue
 		}
 		id := fmt.Sprintf("sv%d", bi)
-		a := &aspec.ASpec{Base: b, SpecName: names[bi%len(names)], InfoDesc: descs[bi%len(descs)],
+		name := names[bi%len(names)]
+		if n, ok := odd[bi]; ok {
+			name = n
+		}
+		a := &aspec.ASpec{Base: b, SpecName: name, InfoDesc: descs[bi%len(descs)],
 			Flags: aspec.Flags{APIHandler: true, DoNotEdit: bi%2 == 0}, Security: aspec.Sec{K: "none"}}
 		t := []aspec.Seg{{K: "lit", S: "a"}}
 		tv := []aspec.Seg{{K: "var", S: "x"}}
